@@ -207,3 +207,9 @@ claim("C33", "argument-origin dataflow on signer-set inserts + guard dominance o
       "signed_hash or is the notary key inserted behind verify(notarized_hash, notary key, notary signature)==true under notary_is_signatory; the "
       "TransactionIntent arm cannot complete without the notary verification; duplicate/invalid arms are doomed; Preview* variants come only from "
       "preview transaction types. Byte-mutation resistance is cryptographic and not decided.")
+
+claim("C28", "guard dominance with comparison provenance + who-may-call + table exhaustiveness + audited parser panic surface",
+      "Decides: address decoding returns Ok only when the decoded HRP equals the HRP the network's HrpSet assigns to the decoded entity type, past "
+      "bech32 decoding, the Bech32m test, base32 conversion and the entity-byte lookup; the HRP-ignoring form has only the checking wrapper as "
+      "caller; encoder and decoder share get_entity_hrp (exhaustive match); every HRP of a network carries its suffix; the NonFungibleLocalId / "
+      "address parser's panic-capable constructs are discharged by dominance or audited. Round-trip equalities are not decided.", level="other")
